@@ -9,10 +9,20 @@
  *
  * -DREAL_BUF: sources and sinks are the library's ByteBuffer endpoints
  *             (source_from_buffer / sink_to_buffer).
- * otherwise:  scripted octet drivers of c12_common.h.
+ * otherwise:  scripted drivers of c12_common.h: octet source; the sink is an
+ *             octet driver (-DOCTET_SINK: escape pairs then travel through
+ *             sink_put_chunk -> sink_adapt of endpoints/core.c) or an
+ *             all-or-nothing chunk driver (default; cheaper).
+ * -DSOF=0/1:  fix the mode at compile time (otherwise the solver picks it).
  */
 #include "c12_common.h"
 #include <string.h>
+
+#ifdef OCTET_SINK
+#define SINKINIT(d) OCTET_SINK_INIT(ssink_put, d)
+#else
+#define SINKINIT(d) CHUNK_SINK_INIT(ssink_put_chunk, d)
+#endif
 
 #ifndef NP
 #define NP 3
@@ -34,12 +44,16 @@ VP_DECLARE_INPUT();
 void harness(void)
 {
     VP_INPUT(in);
+#ifdef SOF
+    const bool sof = SOF;
+#else
     const bool sof = in.sof != 0;
     VP_ASSUME(in.sof <= 1);
-    size_t bound = 0;
+#endif
+    c12_len bound = 0;
     for (unsigned f = 0; f < NF; ++f) {
         VP_ASSUME(in.n[f] <= NP);
-        bound += RFC1055_WORST_CASE((size_t)in.n[f], sof);
+        bound += (c12_len)RFC1055_WORST_CASE((size_t)in.n[f], sof);
         /* the header's macro is part of the claim: 2n+1 / 2n+2 */
         VP_ASSERT(RFC1055_WORST_CASE((size_t)in.n[f], sof)
                       == 2u * in.n[f] + (sof ? 2u : 1u),
@@ -48,17 +62,17 @@ void harness(void)
 
     /* reference image of the whole stream */
     uint8_t ref[ENC_MAX];
-    size_t ref_end[NF];
-    size_t rl = 0;
+    c12_len ref_end[NF];
+    c12_len rl = 0;
     for (unsigned f = 0; f < NF; ++f) {
         rl = ref_frame(ref, rl, in.p[f], in.n[f], NP, sof);
         ref_end[f] = rl;
     }
 
     uint8_t pay[NF][NP];
-    memcpy(pay, in.p, sizeof pay);
+    C12_COPY(pay, in.p);
     uint8_t encmem[ENC_MAX + 2 * GUARD];
-    memset(encmem, 0xA5, sizeof encmem);
+    C12_FILL(encmem, 0xA5);
     uint8_t *enc = encmem + GUARD;
 
     RFC1055Context ectx;
@@ -72,7 +86,7 @@ void harness(void)
 #else
     struct ssink es = { .data = enc, .phys = ENC_MAX, .cap = bound, .n = 0,
                         .err = -ENOMEM };
-    Sink esink = OCTET_SINK_INIT(ssink_put, &es);
+    Sink esink = SINKINIT(&es);
 #endif
     for (unsigned f = 0; f < NF; ++f) {
 #ifdef REAL_BUF
@@ -138,7 +152,7 @@ void harness(void)
 #endif
     for (unsigned f = 0; f < NF; ++f) {
         uint8_t outmem[NP + 2 * GUARD];
-        memset(outmem, 0x5A, sizeof outmem);
+        C12_FILL(outmem, 0x5A);
         uint8_t *out = outmem + GUARD;
         /* the sink has room for exactly the payload: one octet too many is
          * a sink error, i.e. a return value other than 1 */
@@ -149,7 +163,7 @@ void harness(void)
 #else
         struct ssink os = { .data = out, .phys = NP, .cap = in.n[f], .n = 0,
                             .err = -ENOMEM };
-        Sink dsink = OCTET_SINK_INIT(ssink_put, &os);
+        Sink dsink = SINKINIT(&os);
 #endif
         int drc = rfc1055_decode(&dctx, &dsrc, &dsink);
         VP_ASSERT(drc == 1, "C12.dec.signals-end-of-frame");
@@ -170,17 +184,16 @@ void harness(void)
             VP_ASSERT(outmem[GUARD + NP + i] == 0x5A, "C12.dec.guard-after");
         }
         if (f == NF - 1) {
-            /* interesting path: every frame full length, the last one made of
-             * the two octets that need stuffing, first frame (if another)
-             * starts with an ordinary octet */
-            VP_WITNESS(drc == 1 && got == NP && in.n[0] == NP
-                           && in.p[f][0] == C_END && in.p[f][NP - 1] == C_ESC
-                           && sof,
-                       "C12.codec.sof-stuffed.reach");
-            VP_WITNESS(drc == 1 && got == NP && in.n[0] == NP
-                           && in.p[f][0] == C_ESC_END && in.p[f][NP - 1] == C_END
-                           && !sof,
-                       "C12.codec.classic-stuffed.reach");
+            /* interesting path: every frame has full length, the last one
+             * begins and ends with the two octets that need stuffing */
+            const bool stuffed = drc == 1 && got == NP && in.n[0] == NP
+                && in.p[f][0] == C_END && in.p[f][NP - 1] == C_ESC;
+#if !defined(SOF) || SOF
+            VP_WITNESS(stuffed && sof, "C12.codec.sof-stuffed.reach");
+#endif
+#if !defined(SOF) || !SOF
+            VP_WITNESS(stuffed && !sof, "C12.codec.classic-stuffed.reach");
+#endif
 #if NF > 1
             VP_WITNESS(drc == 1 && in.n[0] == 0 && got >= 1,
                        "C12.codec.empty-then-nonempty.reach");
